@@ -6,7 +6,7 @@ set -uo pipefail
 WT="$1"; N="$2"; D="$WT/out/$N"
 cd "$WT" || exit 2
 export CARGO_NET_OFFLINE=true RUST_BACKTRACE=0
-git checkout -q -- src
+git checkout -q -- src; git clean -fdq -- src
 meta="$D/meta.json"
 demo_path=$(python3 -c "import json;print(json.load(open('$meta')).get('demo_path','').split()[0])")
 [ -n "$demo_path" ] || { echo "no demo_path in meta"; exit 2; }
@@ -31,7 +31,7 @@ suite=$(timeout 1800 cargo test --offline --no-fail-fast 2>&1)
 # existing tests = everything except demo targets
 passed=$(echo "$suite" | awk '/Running/ {skip = ($0 ~ /demo|findings/)} /^test result:/ { if (!skip) {p+=$4; f+=$6} } END {print p" "f}')
 out_with=$(run_demo); rc_with_fail=$(echo "$out_with" | grep -c "test result: FAILED")
-git checkout -q -- src
+git checkout -q -- src; git clean -fdq -- src; rm -f "$demo_path"
 python3 - "$D/confirm.json" "$rc_without" "$passed" "$rc_with_fail" <<PY
 import json,sys
 p=sys.argv
